@@ -67,6 +67,11 @@ type Actor struct {
 
 	// contracts deployed by this actor (lockup forwarders)
 	Contracts []common.Address
+	// lab contracts (sim/lab.go): Store instances, the CREATE2 factory, a reserved prefunded creation
+	Labs       []common.Address
+	Factory    *common.Address
+	pendingLab *pendingDeploy
+	NoLab      bool // Traffic submits no lab-contract transactions
 
 	// workshares this actor mined and handed to the zone worker
 	Shares []*types.WorkObjectHeader
@@ -98,6 +103,7 @@ func (a *Actor) Fork(salt uint64) *Actor {
 		b.Labels[k] = v
 	}
 	b.Contracts = append([]common.Address{}, a.Contracts...)
+	b.Labs = append([]common.Address{}, a.Labs...)
 	b.created = map[types.OutPoint]uint64{}
 	for k, v := range a.created {
 		b.created[k] = v
@@ -314,6 +320,29 @@ func (a *Actor) Traffic(t *rapid.T) {
 		}
 		kind := rapid.SampledFrom(kinds).Draw(t, "txkind")
 		a.submit(t, kind)
+	}
+	a.LabTraffic(t)
+}
+
+// LabTraffic submits 0-2 lab-contract transactions (deployments, creation on a prefunded address,
+// storage calls, self-destructs, CREATE2 re-creations; see lab.go).
+func (a *Actor) LabTraffic(t *rapid.T) {
+	if a.NoLab || a.ZoneNumber() < params.TimeToStartTx+1 {
+		return
+	}
+	n := rapid.SampledFrom([]int{0, 0, 1, 1, 2}).Draw(t, "nlab")
+	for i := 0; i < n; i++ {
+		kinds := []string{"labdeploy", "labprefund", "labfactory"}
+		if a.pendingLab != nil {
+			kinds = append(kinds, "labcreate", "labcreate", "labcreate")
+		}
+		if a.Factory != nil {
+			kinds = append(kinds, "labspawn", "labspawn")
+		}
+		if len(a.labTargets()) > 0 {
+			kinds = append(kinds, "labcall", "labcall", "labcall", "labkill")
+		}
+		a.submitLab(t, rapid.SampledFrom(kinds).Draw(t, "labkind"))
 	}
 }
 
